@@ -139,6 +139,31 @@ CHECKS["C06"] = dict(
     note=COMMON_NOTE + " Numerical inequalities between returned speeds and temperatures are not decided.",
 )
 
+CHECKS["C04"] = dict(
+    level="other",
+    technique="static analysis: ast -> sympy term extraction + CAS identities (T30 and T33 equations), argument/parameter role agreement along "
+              "the call chain, reaching-definition provenance of every returned temperature, flag typestate on the CFG",
+    text="For every potential, wall shape and set of moments: v(T) is proved to solve w gamma^2 v = s1 with w = -T dV/dT, and the function "
+         "whose root is returned is proved to be (1/2) sum (dphi/dz)^2 - V + w gamma^2 v^2 - s2, i.e. the two conserved stress-tensor "
+         "components; s1/s2 pair with T30/T33; the boundary data keep their roles through all five call levels; every exit of the point "
+         "solver is classified by the provenance of the returned temperature (root / failure sentinel / other) and the failure flag is "
+         "reset before and lowered inside the grid loop; end-point arrays are oriented (behind, ..., in front). The early exit that "
+         "returns the minimiser of the residual as a success is known finding F10.",
+    note=COMMON_NOTE + " Branch selection by |Tn - T+| < 1e-10, convergence of the bracketing loop and the far-field limits are not decided.",
+)
+CHECKS["C09"] = dict(
+    level="other",
+    technique="static analysis: ast -> sympy term extraction + CAS (derivative and limits of the tanh profile), def-use assembly rules for the "
+              "pressure integrand, call-graph/CFG rule for the single grid re-mapping, shared cache-coherence typestate",
+    text="The identity P = V(low) - V(high) is a total-derivative statement; its structural ingredients are decided for every wall shape and "
+         "grid size: dPhidz is the exact derivative of the profile in both branches, the profile tends to the low-T vev behind and the "
+         "high-T vev in front and is affine in the vevs, the integrand is sum_fields dV/dphi * dphi/dz built from one wallProfile call on "
+         "grid.xiValues, integrated with weight -dz/dchi (Jacobian element 0 of the same grid, proved to be the map derivative under "
+         "C17) with Gauss-Chebyshev-Lobatto weights, and the grid is re-mapped exactly once per pressure evaluation, before any "
+         "integrand is built.",
+    note=COMMON_NOTE + " Quadrature and finite-difference accuracy are not decided.",
+)
+
 NOT_APPLICABLE = {}
 
 ENGINES = [
